@@ -292,6 +292,27 @@ def cases(draw, switches):
             else:
                 stmts.append(["let", ["svar", "T"], ["fn", "INKEY$", []], False])
             continue
+        if draw(st.integers(0, 11)) == 0:
+            # scale: one device statement whose operands together need 12-20 temporaries (tmp_10 ...)
+            def heavy(k_):
+                e_ = ["fn", "INT", [["bin", "+", fg.g.num_leaf(), cbgen.lit_expr(k_)]]]
+                for q_ in range(draw(st.integers(2, 3))):
+                    fg.g.n_conv += 1
+                    e_ = ["bin", "+", e_, ["fn", draw(st.sampled_from(["INT", "VAL"])), [["str", str(q_ + k_)]] if False else [["bin", "*", fg.g.num_leaf(), cbgen.lit_expr(q_ + 2)]]]]
+                return e_
+            which = draw(st.sampled_from(["HLINE", "HPUT", "HARC", "HGET"]))
+            if which == "HLINE":
+                s, form = ["dev", "HLINE", {"x0": heavy(1), "y0": heavy(2), "x1": heavy(3), "y1": heavy(4), "mode": "PSET", "box": draw(st.sampled_from([None, "B", "BF"]))}], "HLINE abs PSET"
+            elif which == "HPUT":
+                s, form = ["dev", "HPUT", {"x0": heavy(1), "y0": heavy(2), "x1": heavy(3), "y1": heavy(4), "n": heavy(5), "action": "PSET"}], "HPUT PSET"
+            elif which == "HGET":
+                s, form = ["dev", "HGET", {"x0": heavy(1), "y0": heavy(2), "x1": heavy(3), "y1": heavy(4), "n": heavy(5)}], "HGET"
+            else:
+                s, form = ["dev", "HCIRCLE", {"x": heavy(1), "y": heavy(2), "r": heavy(3), "c": heavy(4), "hw": heavy(5), "s": heavy(6), "e": heavy(7), "form": "arc"}], "HARC"
+            fg.kinds.add("scale_many_temporaries")
+            forms.append(form + " many_temporaries")
+            stmts.append(s)
+            continue
         s, form = fg.device()
         stmts.append(s)
         forms.append(form)
